@@ -33,6 +33,11 @@ def main():
         return 2
     ctx = core.Ctx(args.prop, tier, seed)
     try:
+        from rules import selftest
+        ctx.extra['engine_selftest'] = selftest.run()
+        if tier == 'thorough':
+            from checks import thorough
+            thorough.before(ctx)
         rc = mod.run(ctx)
     except (core.CheckerError, facts.FactsError) as e:
         print('CHECKER-ERROR property=%s %s' % (args.prop, e))
